@@ -32,6 +32,7 @@ func VerifyFunction(p *Program, spec *Spec, fn *ssa.Function, con *Contract) (re
 		pkg = fn.Pkg.Pkg.Path()
 	}
 	s := NewSession(p, spec, pkg)
+	s.BlenFacts = contractMentions(spec, con, "blen")
 	x := &Exec{s: s, fn: fn, con: con, args: map[string]Val{}, argT: map[string]types.Type{}, nPre: map[string]int{}}
 	res = &FuncResult{Func: fn.String(), Contract: con, Sess: s}
 	defer func() {
@@ -206,4 +207,59 @@ func bindResults(env *Env, sig *types.Signature, results []Val) {
 		env.vars["err"] = results[res.Len()-1]
 		env.typs["err"] = last.Type()
 	}
+}
+
+// contractMentions: does a clause of the contract (after macro expansion) mention the symbol?
+func contractMentions(sp *Spec, con *Contract, sym string) bool {
+	names := map[string]bool{sym: true}
+	for changed := true; changed; {
+		changed = false
+		for n, m := range sp.Macros {
+			if names[n] {
+				continue
+			}
+			if sxMentions(m.Body, names) {
+				names[n] = true
+				changed = true
+			}
+		}
+	}
+	var all []*Sx
+	for _, l := range con.Lets {
+		all = append(all, l)
+	}
+	for _, cs := range [][]Clause{con.Requires, con.Ensures, con.OrmPost, con.Panics} {
+		for _, c := range cs {
+			all = append(all, c.Sx)
+		}
+	}
+	for _, l := range con.Loops {
+		for _, c := range l.Inv {
+			all = append(all, c.Sx)
+		}
+		for _, u := range l.Updates {
+			all = append(all, u.Sx)
+		}
+	}
+	for _, e := range all {
+		if sxMentions(e, names) {
+			return true
+		}
+	}
+	return false
+}
+
+func sxMentions(e *Sx, names map[string]bool) bool {
+	if e == nil {
+		return false
+	}
+	if !e.IsL {
+		return names[e.Atom]
+	}
+	for _, c := range e.List {
+		if sxMentions(c, names) {
+			return true
+		}
+	}
+	return false
 }
